@@ -96,8 +96,17 @@ struct PreMain
     char text[96];
     PreMain()
     {
-        static const uint8_t m9[9] = {'1', '2', '3', '4', '5', '6', '7', '8', '9'};
-        static const uint8_t z4[4] = {0, 0, 0, 0};
+        // only in `run` mode (a defect of the library must not take the generator down): argv[1] from /proc
+        text[0] = 0;
+        char cmd[512];
+        FILE *f = fopen("/proc/self/cmdline", "rb");
+        size_t k = f ? fread(cmd, 1, sizeof cmd - 1, f) : 0;
+        if (f) fclose(f);
+        cmd[k] = 0;
+        size_t a0 = strlen(cmd);
+        if (a0 + 1 >= k || strcmp(cmd + a0 + 1, "run") != 0) return;
+        uint8_t m9[9] = {'1', '2', '3', '4', '5', '6', '7', '8', '9'};
+        uint8_t z4[4] = {0, 0, 0, 0};
         uint8_t sm = 0xff;
         for (int i = 0; i < 9; i++) igris_strmcrc8(&sm, (char)m9[i]);
         snprintf(text, sizeof text, "%02x %02x %04x %02x %08x %02x", igris_crc8_table(m9, 9, 0), igris_crc8(m9, 9, 0), igris_crc16(m9, 9, 0),
@@ -274,6 +283,22 @@ static bool run_round3(const std::vector<std::string> &w, out &o)
         rz_buf b(m, align);
         uint32_t r = call_rt(rt, b.p, n, seed);
         bool wrote = m.size() && memcmp(b.p, m.data(), m.size()) != 0;
+        bool recall = false;
+        if (n >= 1 && n <= m.size())
+        {
+            // the SAME object again, immediately, with changed contents (same address, length and seed) and
+            // then with the old contents restored: nothing may be remembered between calls
+            bytes m2 = m;
+            m2[(seed ^ n) % n] ^= (uint8_t)(1u << (seed % 8));
+            memcpy(b.p, m2.data(), m2.size());
+            if (call_rt(rt, b.p, n, seed) != ref_rt(rt, seed, bytes(m2.begin(), m2.begin() + n)))
+                o.fail(rt + ": second call on the same buffer after its contents changed != reference");
+            memcpy(b.p, m.data(), m.size());
+            if (call_rt(rt, b.p, n, seed) != r)
+                o.fail(rt + ": third call on the same buffer with the first contents restored != first result");
+            recall = true;
+        }
+        wrote = wrote || (m.size() && memcmp(b.p, m.data(), m.size()) != 0);
         uint32_t r2 = call_rt(rt, gp.place(m, true), n, seed);
         uint32_t r3 = call_rt(rt, gp.place(m, false), n, seed);
         o.result = hexn(r, digits_rt(rt)) + " r[0," + std::to_string(n) + ") " + (wrote ? "w!" : "w-");
@@ -282,6 +307,7 @@ static bool run_round3(const std::vector<std::string> &w, out &o)
         bytes pre(m.begin(), m.begin() + (n < m.size() ? n : m.size()));
         if (r != ref_rt(rt, seed, pre)) o.fail(rt + " != reference over the first len bytes");
         o.tag(("acc-" + rt).c_str());
+        if (recall) o.tag("acc-recall");
         if (align) o.tag("acc-misaligned");
         if (n == 0) o.tag("acc-len0");
         return true;
